@@ -129,6 +129,7 @@ package frontend
 //@   requires ctx != nil
 //@   nosafety
 //@   ensures blank: len(trimmed(input)) == 0 ==> result.0 == nil && result.1 == ErrInvalidInput && result.1 != nil
+//@   ensures errorsReachTheCaller: (exists i int :: 0 <= i && i < len(ctx.Errors) && ctx.Errors[i] != nil) ==> result.1 != nil
 
 //@ func parseCypher(ctx *Context, input string) (*cypher.RegularQuery, error)
 //@   requires ctx != nil
